@@ -32,6 +32,25 @@ class Frame:
         self.old_ns = None
 
 
+def number_comprehensions(fnode):
+    """Ordinal (1-based, source order) for every list comprehension directly in the function."""
+    out = {}
+    n = 0
+
+    def visit(node):
+        nonlocal n
+        for child in ast.iter_child_nodes(node):
+            if isinstance(child, (ast.FunctionDef, ast.Lambda, ast.ClassDef)):
+                continue
+            if isinstance(child, ast.ListComp):
+                n += 1
+                out[id(child)] = n
+            visit(child)
+
+    visit(fnode)
+    return out
+
+
 def number_loops(fnode):
     """Loop ordinal (1-based, source order) for every For/While directly in the function (not nested defs)."""
     out = {}
@@ -566,6 +585,11 @@ class CallMixin:
                 if all(self.branch(self.eval(c, sub)) for c in gen.ifs):
                     out.append(self.eval(node.elt, sub))
             return self.path.alloc(SeqCell(SeqV("list", seqops.elem_kind_of_items(out) if out else None, items=out)))
+        cc = getattr(frame, "comp_contracts", None)
+        if cc and not gen.ifs and kind == "list":
+            inv = cc.get(getattr(frame, "comp_ordinals", {}).get(id(node)))
+            if inv is not None:
+                return self.comprehension_with_invariant(node, frame, sub, gen, inv, it)
         if gen.ifs:
             raise Unsupported("filtering comprehension over symbolic-length sequence")
         # map rule: result[i] == elt(it[i]) for all i  (elt must be pure and scalar-valued)
@@ -587,6 +611,36 @@ class CallMixin:
             raise Unsupported("comprehension over symbolic-length sequence with non-scalar element (more than 40 elements possible)")
         arr = z3.Lambda([i], to_term(val, k))
         return self.path.alloc(SeqCell(SeqV("list", k, arr=arr, length=count)))
+
+    def comprehension_with_invariant(self, node, frame, sub, gen, inv, it):
+        """[elt for x in it] whose element expression has effects (a call-out that consumes input, creates objects ...) and
+        whose length is symbolic: the Hoare rule for loops with the list built so far as the local `acc`."""
+        from .core import PathEnd
+        path = self.path
+        label = f"{getattr(self, 'unit_label', '')}/{frame.info.qualname if frame.info else ''}.comprehension{frame.comp_ordinals[id(node)]}"
+        getter, count = self.indexer(it)
+        count_t = to_term(count, "int")
+        saved = frame.locals.get("acc", _NOACC)
+        frame.locals["acc"] = path.alloc(SeqCell(SeqV("list", None, items=[])))
+        try:
+            self.check_invariant(inv, frame, 0, label + "/init", it)
+            self.havoc(frame, set(), set(inv.modifies), {"acc"}, inv)
+            j = z3.Int(path.fresh_name("cj"))
+            path.assume(z3.And(j >= 0, j <= count_t))
+            jv = mk("int", j)
+            self.assume_invariant(inv, frame, jv, it)
+            if path.decide(j < count_t):
+                self.assign_target(gen.target, getter(jv), sub)
+                v = self.eval(node.elt, sub)
+                self.call_value(self.get_attr(frame.locals["acc"], "append"), [v], {})
+                self.check_invariant(inv, frame, mk("int", j + 1), label + "/preserve", it)
+                raise PathEnd()
+            return frame.locals["acc"]
+        finally:
+            if saved is _NOACC:
+                frame.locals.pop("acc", None)
+            else:
+                frame.locals["acc"] = saved
 
     def _comp_nested(self, node, frame):
         out = []
@@ -684,6 +738,9 @@ class CallMixin:
             c = z3.And(*cond) if cond else z3.BoolVal(True)
             t = z3.If(c, to_term(v, k), t)
         return mk(k, t) if k != "float" else Sym("float", t)
+
+
+_NOACC = object()
 
 
 class NoFeasiblePath(Exception):
